@@ -42,7 +42,7 @@ Example builder_roundtrip_example :
   let vs := [PInt 1; PList [PFloat 2; PNone; PList [PStr true [97]]]; PBool true; PNone; PList []; PStr false [0; 255]] in
   good_opts o /\ forallb no_struct vs = true /\
   (do b <- run o ab_init (encode_all vs); observe b) = Ok (unify vs).
-Proof. cbv zeta. split; [split; [lia|intros; lia]|split; [reflexivity|vm_compute; reflexivity]]. Qed.
+Proof. cbv zeta. split; [split; cbn; [lia|intros; lia]|split; [reflexivity|vm_compute; reflexivity]]. Qed.
 
 (* ================================================================== (c) equal states, equal snapshots *)
 (* logical equality of states: same tree, same buffer contents; capacity, junk and allocation identity may differ *)
@@ -103,7 +103,7 @@ Example equal_states_example :
   let g1 := {| gid := 3%nat; gdata := [5; 6; 0; 0]; glen := 2; gres := 4 |} in
   let g2 := {| gid := 9%nat; gdata := [5; 6; 1]; glen := 2; gres := 3 |} in
   same (BOption g1 (BInt g1)) (BOption g2 (BInt g2)) /\ g1 <> g2.
-Proof. cbv zeta. split; [cbn; auto|discriminate]. Qed.
+Proof. cbv zeta. split; [vm_compute; repeat split|discriminate]. Qed.
 
 (* ================================================================== (d) ill-nested calls *)
 Definition closing_or_inner (c : cmd) : Prop := kind_of c = KEnd \/ kind_of c = KInner.
@@ -234,7 +234,7 @@ Example growth_irrelevant_example :
   good_opts o1 /\ good_opts o2 /\
   (do b <- run o1 ab_init cs; observe b) = (do b <- run o2 ab_init cs; observe b) /\
   (do b <- run o1 ab_init cs; snapshot b) = (do b <- run o2 ab_init cs; snapshot b).
-Proof. cbv zeta. repeat split; try lia; try (intros; lia); vm_compute; reflexivity. Qed.
+Proof. cbv zeta. repeat split; cbn [initial grow]; try lia; try (intros; lia); vm_compute; reflexivity. Qed.
 
 (* ================================================================== (b) snapshots are immutable: value half *)
 (* Whatever is appended later, the events (errors and snapshots) produced by a prefix of a session are exactly the
